@@ -125,6 +125,8 @@ def call_builtin(it, name, args, kwargs):
     if name in ('list', 'tuple'):
         if not args:
             return [] if name == 'list' else ()
+        if isinstance(args[0], Opaque):
+            return Opaque(name)
         v = it.concrete_iter(args[0])
         if v is None:
             raise Unsupported('%s() of symbolic sequence' % name)
@@ -240,6 +242,10 @@ def call_builtin(it, name, args, kwargs):
         if is_fp_term(v):
             return z3.And(z3.Not(z3.fpIsNaN(v)), z3.Not(z3.fpIsInf(v)))
         return True
+    if name == 'exceeds':
+        return it.compare(ast.Gt(), args[0], args[1])
+    if name == 'below':
+        return it.compare(ast.Lt(), args[0], args[1])
     if name == 'same_fp':
         a, b = args
         if is_fp_term(a) or is_fp_term(b):
@@ -285,10 +291,8 @@ def isinstance_model(it, v, t):
     res = False
     for ty in ts:
         if isinstance(ty, Opaque):
-            if isinstance(v, Opaque):
-                res = zor(res, it.ctx.upred('isinstance', v.name, ty.name))
-                continue
-            raise Unsupported('isinstance against opaque type')
+            res = zor(res, it.ctx.upred('isinstance', it.okey(v) if not isinstance(v, Opaque) else v.name, ty.name))
+            continue
         if isinstance(ty, I.ClassRef):
             nm = ty.name
         elif isinstance(ty, PyType):
